@@ -58,3 +58,146 @@ func registerTimeModels(e *Engine) {
 		return Tuple{b.Len, Iface{}}
 	})
 }
+
+// ---- utils.Timer model (the contract of property C19, assumed by C07/C08/C12) ----
+// A timer is a record (callback, period, due instant, armed, interval).  It fires when
+// the harness clock is moved to or past its due instant by verif.SleepUntil; Stop
+// disarms; Refresh re-arms one period from now whether it was pending, fired or stopped.
+
+type timerRec struct {
+	cell     *Val
+	fn       Val
+	period   *smt.Term
+	due      *smt.Term
+	armed    bool
+	interval bool
+	fired    int
+}
+
+func (in *Interp) tnow() *smt.Term {
+	if t, ok := in.side["tclock"].(*smt.Term); ok {
+		return t
+	}
+	return in.ctx.Const(64, 0)
+}
+
+func (in *Interp) timers() []*timerRec {
+	t, _ := in.side["timers"].([]*timerRec)
+	return t
+}
+
+func (in *Interp) findTimer(p *Val) *timerRec {
+	for _, r := range in.timers() {
+		if r.cell == p {
+			return r
+		}
+	}
+	return nil
+}
+
+func registerTimerModels(e *Engine) {
+	utilsPkg := repoMod + "/utils"
+	mk := func(interval bool) ModelFn {
+		return func(in *Interp, fr *frame, fn *ssa.Function, a []Val) Val {
+			cell := new(Val)
+			*cell = in.zero(deref(fn.Signature.Results().At(0).Type()))
+			d := a[1].(*smt.Term)
+			c := in.ctx
+			// time.NewTimer with a non-positive duration fires immediately
+			dd := c.Ite(c.Bin(smt.OpSLt, d, c.Const(64, 0)), c.Const(64, 0), d)
+			r := &timerRec{cell: cell, fn: a[0], period: d, due: c.Bin(smt.OpAdd, in.tnow(), dd), armed: true, interval: interval}
+			in.side["timers"] = append(in.timers(), r)
+			return cell
+		}
+	}
+	e.reg(utilsPkg+".SetTimeout", mk(false))
+	e.reg(utilsPkg+".SetTimeOut", mk(false))
+	e.reg(utilsPkg+".SetInterval", mk(true))
+	stop := func(in *Interp, p Val) {
+		q := nilCheck(in, p)
+		if r := in.findTimer(q); r != nil {
+			r.armed = false
+		}
+	}
+	clear := func(in *Interp, fr *frame, fn *ssa.Function, a []Val) Val {
+		if q, _ := a[0].(*Val); q != nil {
+			stop(in, q)
+		}
+		return nil
+	}
+	e.reg(utilsPkg+".ClearTimeout", clear)
+	e.reg(utilsPkg+".ClearInterval", clear)
+	e.reg("(*"+utilsPkg+".Timer).Stop", func(in *Interp, fr *frame, fn *ssa.Function, a []Val) Val {
+		stop(in, a[0])
+		return nil
+	})
+	e.reg("(*"+utilsPkg+".Timer).Unref", func(in *Interp, fr *frame, fn *ssa.Function, a []Val) Val { return nil })
+	e.reg("(*"+utilsPkg+".Timer).Refresh", func(in *Interp, fr *frame, fn *ssa.Function, a []Val) Val {
+		q := nilCheck(in, a[0])
+		if r := in.findTimer(q); r != nil {
+			c := in.ctx
+			dd := c.Ite(c.Bin(smt.OpSLt, r.period, c.Const(64, 0)), c.Const(64, 0), r.period)
+			r.due = c.Bin(smt.OpAdd, in.tnow(), dd)
+			r.armed = true
+		}
+		return q
+	})
+	v := func(name string, m ModelFn) { e.reg(verifPkg+"."+name, m) }
+	v("Now", func(in *Interp, fr *frame, fn *ssa.Function, a []Val) Val { return in.tnow() })
+	v("RunTimed", func(in *Interp, fr *frame, fn *ssa.Function, a []Val) Val {
+		in.call(fr, a[0], nil)
+		return nil
+	})
+	v("ArmedTimers", func(in *Interp, fr *frame, fn *ssa.Function, a []Val) Val {
+		n := 0
+		for _, r := range in.timers() {
+			if r.armed {
+				n++
+			}
+		}
+		return in.ctx.Const(64, uint64(n))
+	})
+	// SleepUntil(t): fire every armed timer due at or before t, in due order, then set the clock to t.
+	v("SleepUntil", func(in *Interp, fr *frame, fn *ssa.Function, a []Val) Val {
+		c := in.ctx
+		t := a[0].(*smt.Term)
+		in.Assume(c.Bin(smt.OpSLe, in.tnow(), t))
+		for iter := 0; ; iter++ {
+			if iter > in.W.Cfg.Unwind {
+				in.W.noteUnwind("verif.SleepUntil timer firings")
+				in.endPath("unwind", "too many timer firings in one SleepUntil")
+			}
+			var cands []*timerRec
+			for _, r := range in.timers() {
+				if r.armed && in.Branch(c.Bin(smt.OpSLe, r.due, t)) {
+					cands = append(cands, r)
+				}
+			}
+			if len(cands) == 0 {
+				break
+			}
+			k := 0
+			if len(cands) > 1 {
+				k = in.Choose(len(cands))
+				in.inputs = append(in.inputs, Input{Kind: "choose", Conc: int64(k), Label: "timer-order"})
+			}
+			r := cands[k]
+			for j, o := range cands {
+				if j != k {
+					in.Assume(c.Bin(smt.OpSLe, r.due, o.due))
+				}
+			}
+			in.side["tclock"] = r.due
+			r.fired++
+			if r.interval {
+				r.due = c.Bin(smt.OpAdd, r.due, r.period)
+			} else {
+				r.armed = false
+			}
+			in.call(fr, r.fn, nil)
+			in.quiesce()
+		}
+		in.side["tclock"] = t
+		return nil
+	})
+}
